@@ -1423,3 +1423,341 @@ func ruleR16_8(r *Run) {
 	}
 	r.check(n >= 1, "neuronjson:memdb-deletes", fmt.Sprintf("%d deletions from the in-memory database's maps examined", n), "no deletion found: rule needs review", "-")
 }
+
+func init() {
+	register(ruleDef{ID: "R20.13", Prop: "C20", Tier: "quick", Floor: 3,
+		Title: "a channel is closed only after its senders have finished: where a function starts goroutines that are handed a channel and later closes that channel, every path from starting such a goroutine to the close passes a WaitGroup.Wait (a send on a closed channel panics outside any recover and ends the process)",
+		Fn:    ruleR20_13})
+}
+
+func ruleR20_13(r *Run) {
+	w := r.W
+	n := 0
+	for _, f := range w.RepoFuncs {
+		p := relPkg(pkgPathOf(f))
+		if !strings.HasPrefix(p, "datatype/") || len(f.Blocks) == 0 || f.Parent() != nil || strings.HasSuffix(w.fposFile(f), "_test.go") {
+			continue
+		}
+		k := 0
+		for _, c := range calls(f) {
+			bi, ok := c.Common().Value.(*ssa.Builtin)
+			if !ok || bi.Name() != "close" {
+				continue
+			}
+			ch := c.Common().Args[0]
+			chKey := placeKey(ch)
+			// goroutines started in f that are handed this channel and may send on it
+			var senders []ssa.Instruction
+			for _, g := range calls(f) {
+				gi, ok := g.(*ssa.Go)
+				if !ok {
+					continue
+				}
+				// where does the channel arrive in the goroutine's function: as a parameter or a captured variable
+				var target *ssa.Function
+				var aliases []ssa.Value
+				if mc, ok := gi.Call.Value.(*ssa.MakeClosure); ok {
+					target, _ = mc.Fn.(*ssa.Function)
+					if target != nil {
+						for bi2, bnd := range mc.Bindings {
+							if "load("+addrKey(bnd)+")" == chKey || placeKey(bnd) == chKey {
+								aliases = append(aliases, target.FreeVars[bi2])
+							}
+						}
+					}
+				} else {
+					target = gi.Call.StaticCallee()
+				}
+				if target != nil {
+					off := 0
+					for ai, a := range gi.Call.Args {
+						if placeKey(a) == chKey && ai-off < len(target.Params) && ai < len(target.Params) {
+							aliases = append(aliases, target.Params[ai])
+						}
+					}
+				}
+				if target == nil || len(aliases) == 0 {
+					continue
+				}
+				if sendsOn(w, target, aliases, 2) {
+					senders = append(senders, gi)
+				}
+			}
+			if len(senders) == 0 {
+				continue
+			}
+			n++
+			k++
+			isWait := func(in ssa.Instruction) bool {
+				ci, ok := in.(ssa.CallInstruction)
+				if !ok {
+					return false
+				}
+				cal := ci.Common().StaticCallee()
+				return cal != nil && cal.Pkg != nil && cal.Pkg.Pkg.Path() == "sync" && cal.Name() == "Wait"
+			}
+			var wit []ssa.Instruction
+			for _, s := range senders {
+				if pth := findPath(f, s, isWait, func(in ssa.Instruction) bool { return in == ssa.Instruction(c) }, nil); pth != nil {
+					wit = pth
+				}
+			}
+			r.check(wit == nil, fmt.Sprintf("%s:close#%d:after-senders-finished", fname(f), k), "every path from starting a sending goroutine to the close passes a WaitGroup.Wait",
+				"the channel can be closed while goroutines started by this function may still send on it: their send panics with 'send on closed channel' outside the request's recover, which ends the server process", w.pos(c.Pos()), w.renderPath(wit)...)
+		}
+	}
+	r.check(n >= 3, "repo:closes-of-channels-with-goroutine-senders", fmt.Sprintf("%d such closes examined", n), "no such close found: rule needs review", "-")
+}
+
+// mayInstr: some instruction satisfying pred is reachable from f through static calls (and closures)
+// within depth levels.
+func mayInstr(w *World, f *ssa.Function, pred func(ssa.Instruction) bool, depth int) bool {
+	seen := map[*ssa.Function]bool{}
+	var rec func(g *ssa.Function, d int) bool
+	rec = func(g *ssa.Function, d int) bool {
+		if g == nil || seen[g] || len(g.Blocks) == 0 {
+			return false
+		}
+		seen[g] = true
+		for _, h := range withClosures(g) {
+			for _, b := range h.Blocks {
+				for _, in := range b.Instrs {
+					if pred(in) {
+						return true
+					}
+					if d > 0 {
+						if c, ok := in.(ssa.CallInstruction); ok {
+							for _, callee := range w.Callees(c) {
+								if inRepo(callee) && rec(callee, d-1) {
+									return true
+								}
+							}
+						}
+					}
+				}
+			}
+		}
+		return false
+	}
+	return rec(f, depth)
+}
+
+// sendsOn: the function sends on one of the given channel values (parameters / captured variables of
+// f), or passes one on to a callee that does (depth-bounded).
+func sendsOn(w *World, f *ssa.Function, chans []ssa.Value, depth int) bool {
+	isAlias := func(v ssa.Value, g *ssa.Function) bool {
+		for _, rt := range roots(v, g) {
+			for _, c := range chans {
+				if rt.V == c {
+					return true
+				}
+				if ld, ok := rt.V.(*ssa.UnOp); ok && ld.X == c {
+					return true
+				}
+			}
+		}
+		v = stripConv(v)
+		for _, c := range chans {
+			if v == c {
+				return true
+			}
+			if ld, ok := v.(*ssa.UnOp); ok && ld.X == c {
+				return true
+			}
+		}
+		return false
+	}
+	for _, g := range withClosures(f) {
+		for _, b := range g.Blocks {
+			for _, in := range b.Instrs {
+				if s, ok := in.(*ssa.Send); ok && isAlias(s.Chan, g) {
+					return true
+				}
+				if depth > 0 {
+					if c, ok := in.(ssa.CallInstruction); ok {
+						callee := c.Common().StaticCallee()
+						if callee == nil || !inRepo(callee) || len(callee.Blocks) == 0 {
+							continue
+						}
+						var next []ssa.Value
+						for ai, a := range c.Common().Args {
+							if isAlias(a, g) && ai < len(callee.Params) {
+								next = append(next, callee.Params[ai])
+							}
+						}
+						if len(next) > 0 && sendsOn(w, callee, next, depth-1) {
+							return true
+						}
+					}
+				}
+			}
+		}
+	}
+	return false
+}
+
+func init() {
+	register(ruleDef{ID: "R20.14", Prop: "C20", Tier: "quick", Floor: 8,
+		Title: "chunk-handler tokens are handed on or returned: after server.CheckChunkThrottling() took a token, every path to the next token request or to a return starts the chunk goroutine (which returns the token) or returns the token itself",
+		Fn:    ruleR20_14})
+}
+
+func ruleR20_14(r *Run) {
+	w := r.W
+	isTokenSend := func(in ssa.Instruction) bool {
+		s, ok := in.(*ssa.Send)
+		if !ok {
+			return false
+		}
+		if ld, ok := s.Chan.(*ssa.UnOp); ok {
+			if g, ok := ld.X.(*ssa.Global); ok && g.Name() == "HandlerToken" {
+				return true
+			}
+		}
+		return false
+	}
+	n := 0
+	for _, f := range w.RepoFuncs {
+		if len(f.Blocks) == 0 || strings.HasSuffix(w.fposFile(f), "_test.go") || !strings.HasPrefix(relPkg(pkgPathOf(f)), "datatype/") {
+			continue
+		}
+		k := 0
+		for _, c := range calls(f) {
+			if !isCallTo(c, "server", "", "CheckChunkThrottling") {
+				continue
+			}
+			n++
+			k++
+			handsOn := func(in ssa.Instruction) bool {
+				if isTokenSend(in) {
+					return true
+				}
+				switch x := in.(type) {
+				case *ssa.Go:
+					var target *ssa.Function
+					if mc, ok := x.Call.Value.(*ssa.MakeClosure); ok {
+						target, _ = mc.Fn.(*ssa.Function)
+					} else {
+						target = x.Call.StaticCallee()
+					}
+					if target == nil {
+						// interface / function value: resolved through the call graph
+						for _, t := range w.Callees(x) {
+							if mayInstr(w, t, isTokenSend, 3) {
+								return true
+							}
+						}
+						return false
+					}
+					return mayInstr(w, target, isTokenSend, 3)
+				case *ssa.Call:
+					for _, t := range w.Callees(x) {
+						if inRepo(t) && t != f && mayInstr(w, t, isTokenSend, 3) {
+							return true
+						}
+					}
+				}
+				return false
+			}
+			p := findPath(f, c, handsOn, func(in ssa.Instruction) bool {
+				if in == ssa.Instruction(c) {
+					return true
+				}
+				_, isRet := in.(*ssa.Return)
+				return isRet
+			}, nil)
+			r.check(p == nil, fmt.Sprintf("%s:chunk-token#%d:handed-on-or-returned", fname(f), k), "after the token is taken every path starts the chunk goroutine that returns it, or returns it",
+				"a chunk-handler token can be taken and then dropped (e.g. the block is skipped by the ROI test after the token was taken): the token pool is server-wide, so after enough skipped blocks every chunk read and write blocks for ever", w.pos(c.Pos()), w.renderPath(p)...)
+		}
+	}
+	r.check(n >= 8, "repo:chunk-token-requests", fmt.Sprintf("%d token requests examined", n), "token requests not found", "-")
+}
+
+func init() {
+	register(ruleDef{ID: "R20.15", Prop: "C20", Tier: "quick", Floor: 4,
+		Title: "buffers sized by the request's geometry are allocated only for a positive voxel count: every make() whose length derives from NumVoxels() of a request geometry is behind a test that rejects counts ≤ 0 (negative sizes and int64 overflow arrive as negative counts)",
+		Fn:    ruleR20_15})
+}
+
+func ruleR20_15(r *Run) {
+	w := r.W
+	n := 0
+	for _, f := range w.RepoFuncs {
+		if len(f.Blocks) == 0 || strings.HasSuffix(w.fposFile(f), "_test.go") || !strings.HasPrefix(relPkg(pkgPathOf(f)), "datatype/") {
+			continue
+		}
+		derivesNV := func(v ssa.Value) *ssa.Call {
+			var hit *ssa.Call
+			var walk func(v ssa.Value, d int)
+			seen := map[ssa.Value]bool{}
+			walk = func(v ssa.Value, d int) {
+				if d > 8 || v == nil || seen[v] {
+					return
+				}
+				seen[v] = true
+				switch x := v.(type) {
+				case *ssa.Call:
+					if callName(x) == "NumVoxels" {
+						hit = x
+					}
+				case *ssa.Convert:
+					walk(x.X, d+1)
+				case *ssa.BinOp:
+					walk(x.X, d+1)
+					walk(x.Y, d+1)
+				case *ssa.Phi:
+					for _, e := range x.Edges {
+						walk(e, d+1)
+					}
+				}
+			}
+			walk(v, 0)
+			return hit
+		}
+		k := 0
+		for _, b := range f.Blocks {
+			for _, in := range b.Instrs {
+				mk, ok := in.(*ssa.MakeSlice)
+				if !ok {
+					continue
+				}
+				nv := derivesNV(mk.Len)
+				if nv == nil {
+					continue
+				}
+				// only geometries that come from the request: the receiver of NumVoxels is a parameter or built from one
+				n++
+				k++
+				guarded := false
+				for _, b2 := range f.Blocks {
+					ifi, ok := b2.Instrs[len(b2.Instrs)-1].(*ssa.If)
+					if !ok {
+						continue
+					}
+					bo, ok := ifi.Cond.(*ssa.BinOp)
+					if !ok {
+						continue
+					}
+					kk, isK := constInt(bo.Y)
+					if !isK || derivesNV(bo.X) == nil {
+						continue
+					}
+					// the edge on which the count is known positive
+					pos := -1
+					switch {
+					case bo.Op == token.LEQ && kk == 0, bo.Op == token.LSS && kk == 1, bo.Op == token.LSS && kk == 0 && false:
+						pos = 1
+					case bo.Op == token.GTR && kk == 0, bo.Op == token.GEQ && kk == 1:
+						pos = 0
+					}
+					if pos >= 0 && guardedByEdge(ifi, pos, mk) {
+						guarded = true
+					}
+				}
+				r.check(guarded, fmt.Sprintf("%s:make#%d:positive-voxel-count", fname(f), k), "the allocation is on the 'count > 0' edge of a test of the voxel count",
+					"a buffer is allocated with a length derived from the request geometry's voxel count without rejecting counts ≤ 0: a negative size component (or a product overflowing int64) makes make() panic, and the request is answered by the panic handler instead of being rejected", w.pos(mk.Pos()))
+			}
+		}
+	}
+	r.check(n >= 4, "repo:geometry-sized-allocations", fmt.Sprintf("%d allocations sized by a geometry's voxel count", n), "none found: rule needs review", "-")
+}
